@@ -31,7 +31,7 @@ def part(R):
     for kind, n, corpus in (("fib", 150 if R.quick else 6000, "C05"), ("rib", 150 if R.quick else 5000, "C06")):
         trace, out = tc.run_harness(R, h, kind, n, R.seed, ms, tc.corpus_files(corpus) + tc.corpus_files("C08_tables"), tag="-" + kind)
         if trace is None:
-            R.oracle_failure("tables-harness-crash", "the Go tables harness aborted", dict(output=out[-2000:]))
+            tc.harness_abort(R, out, "tables-harness-crash", "the Go tables harness aborted")
             return False
         rc, rout, text = tc.run_runner(exe, trace)
         rep = tc.Report(rout)
